@@ -714,6 +714,10 @@ def run(ctx):
                 "records exact against the extracted queue machine, kick offsets bit for bit against _calcKick(record). calcmod/calckick: "
                 "tolerance stream K*2^-24*cond against the extracted arithmetic with libm sines supplied. program: inovesa runs, both RF models, "
                 "outstep in {0,1,2,3,n,n+5,7}: /RFKicks/data rows = executed steps, values against the sinusoidal formula. "
+                "program-steps: steps defined by -N, by --StepsPerRevolution, by --StepsPerRevolution with a contradicting -N; rows against "
+                "A sin(2 pi f_mod k dt) with dt derived from the command line as main() does. program-interrupt: RF modulation, seven cadences, "
+                "SIGINT by the VERIF_POINT hook at chosen points: rows = rfm->apply() calls of the run's own trace = first rows of the every-step "
+                "reference; extracted driver model (generated main_prog + set-up skeleton, numbered records) flushes records 0..m-1. "
                 "Non-trivial: finite non-zero offsets on non-zero data / schedules with >= 2 applies and a flush between / A != 0.")
     coq = vp_coq.full_check("C19", ctx, fams=("dynrf", "driver"))
     dis = []
